@@ -157,7 +157,6 @@ package clientgen
 
 // net/url is imported exactly when some RPC's URL code mentions the package
 //@ func (g *Generator) fileNeedsURLImport(file *protogen.File) (r bool)
-//@   requires file != nil
 //@   ensures iff: r <==> (exists i int, j int :: 0 <= i && i < len(file.Services) && 0 <= j && j < len(file.Services[i].Methods) && spec.usesURL(file.Services[i].Methods[j]))
 //@   loop 1 invariant forall i int, j int :: 0 <= i && i < _i1 && 0 <= j && j < len(file.Services[i].Methods) ==> !spec.usesURL(file.Services[i].Methods[j])
 //@   loop 2 invariant forall i int, j int :: 0 <= i && i < _i1 && 0 <= j && j < len(file.Services[i].Methods) ==> !spec.usesURL(file.Services[i].Methods[j])
@@ -165,7 +164,6 @@ package clientgen
 
 // bytes is imported exactly when some RPC sends a body
 //@ func (g *Generator) fileNeedsRequestBody(file *protogen.File) (r bool)
-//@   requires file != nil
 //@   ensures iff: r <==> (exists i int, j int :: 0 <= i && i < len(file.Services) && 0 <= j && j < len(file.Services[i].Methods) && spec.isBodyVerb(spec.verbOf(file.Services[i].Methods[j])))
 //@   loop 1 invariant forall i int, j int :: 0 <= i && i < _i1 && 0 <= j && j < len(file.Services[i].Methods) ==> !spec.isBodyVerb(spec.verbOf(file.Services[i].Methods[j]))
 //@   loop 2 invariant forall i int, j int :: 0 <= i && i < _i1 && 0 <= j && j < len(file.Services[i].Methods) ==> !spec.isBodyVerb(spec.verbOf(file.Services[i].Methods[j]))
@@ -192,7 +190,6 @@ package clientgen
 
 // ... and it is asked with the answers of the two file-level deciders
 //@ func (g *Generator) generateClientFile(file *protogen.File) (err error)
-//@   requires file != nil && g != nil
 //@   modifies *
 //@   at-call fileNeedsRequestBody requires same_file: arg0 == file
 //@   at-call fileNeedsURLImport requires same_file: arg0 == file
